@@ -542,8 +542,11 @@ func hTLS(out *Out) {
 	// authenticate to with client certificates (replication.ca-filename, replication.client-cert-auth,
 	// replication.allowed-cn reaching security.TLSInfo in cmd/leader.go createReplicationServer)
 	// (replication.allowed-cn / allowed-hostname are read by the code but have no command-line flag)
-	for _, o := range []opt{{true, true, "", ""}, {true, false, "", ""}} {
-		args := []string{"--replication.cert-filename=" + cf, "--replication.key-filename=" + kf, "--replication.ca-filename=" + caFile}
+	for _, o := range []opt{{true, true, "", ""}, {true, false, "", ""}, {false, true, "", ""}} {
+		args := []string{"--replication.cert-filename=" + cf, "--replication.key-filename=" + kf}
+		if o.ca {
+			args = append(args, "--replication.ca-filename="+caFile)
+		}
 		if o.cca {
 			args = append(args, "--replication.client-cert-auth=true")
 		}
@@ -562,6 +565,10 @@ func hTLS(out *Out) {
 			desc := "none"
 			if c.cert != nil {
 				desc = fmt.Sprintf("cert %s %s 0", b2i(c.chains), hx([]byte(c.cert.Leaf.Subject.CommonName)))
+			}
+			// ClientCertAuth without a CA file verifies against the system roots: nothing of ours chains
+			if !o.ca && o.cca && c.cert != nil {
+				desc = fmt.Sprintf("cert 0 %s 0", hx([]byte(c.cert.Leaf.Subject.CommonName)))
 			}
 			cc := &tls.Config{RootCAs: pool, ServerName: "127.0.0.1"}
 			if c.cert != nil {
